@@ -92,6 +92,12 @@ def stream_regen(ctx: Ctx):
                      "the list the code uses at run time differs from the source literal")
     rep = ctx.driver.run(["c06.handled"])[0]
     st, toks = common.parse_reply(rep)
+    if (st != "ok" or toks != names) and not changed:
+        # generated file up to date but the binary is older (e.g. the file was regenerated outside a run): rebuild once
+        ctx.notes.append("drv_c06 was built from another HANDLED list; rebuilding")
+        common.lake_build(["Proofs.Props.C06", "drv_c06"])
+        rep = ctx.driver.run(["c06.handled"])[0]
+        st, toks = common.parse_reply(rep)
     if st != "ok" or toks != names:
         ctx.disagree("regen", {"kind": "regen", "source": names, "driver": toks},
                      "the list compiled into the model driver differs from the source literal (stale build?)")
@@ -185,7 +191,7 @@ def ref_table(ctx, site, dtype):
         T = site_call(site, api, X, y)
     T = torch.Tensor.as_subclass(T, torch.Tensor).detach().reshape(K, K, -1)
     # item-by-item validation of sampled entries
-    nval = K * K if (not ctx.quick and ctx.rng.random() < 0.12) else 24
+    nval = K * K if (not ctx.quick and dtype == "float64") else 24
     tol = 256 * common.EPS[dtype]
     for _ in range(nval) if nval < K * K else [None]:
         pairs = [(ctx.rng.randrange(K), ctx.rng.randrange(K))] if nval < K * K else list(itertools.product(range(K), range(K)))
@@ -202,6 +208,21 @@ def ref_table(ctx, site, dtype):
                 break
     _TABLES[key] = T
     return T
+
+
+def as_view(t, mode):
+    """the same values as a non-contiguous view: rows embedded in a wider buffer ('slice'), batch dimensions stored
+    in reverse order ('perm'); returns (view, base buffer)"""
+    if mode == "slice":
+        buf = torch.full(t.shape[:-1] + (t.shape[-1] + 2,), 9.0, dtype=t.dtype)
+        buf[..., 1:-1] = t
+        return buf[..., 1:-1], buf
+    if mode == "perm" and t.dim() >= 3:
+        r = t.dim() - 1
+        perm = list(range(r))[::-1] + [r]
+        base = t.permute(perm).contiguous()
+        return base.permute(perm), base          # reversing twice restores the order
+    return t, t
 
 
 def torch_pairing(sa, sb):
@@ -225,6 +246,23 @@ def model_pairs(ctx, pairs):
     return _MODEL_PAIR
 
 
+_MODEL_ADD = {}
+
+
+def model_add_pairs(ctx, pairs):
+    """model's `addOp` (expand, clone, in-place retraction) on tagged operands: pairs (tag of a, tag of x)"""
+    todo = [p for p in pairs if p not in _MODEL_ADD]
+    if todo:
+        reps = ctx.driver.run([f"c06.add 4 {wl(a)} {wl(b)}" for a, b in todo])
+        for p, rep in zip(todo, reps):
+            m = parse_out(rep)
+            if m is not None:       # same layout as binop's answer: (x tag, y tag)
+                v = m["vals"]
+                m["vals"] = [v[k ^ 1] for k in range(len(v))]
+            _MODEL_ADD[p] = m
+    return _MODEL_ADD
+
+
 def check_bcast(ctx: Ctx, case) -> bool:
     """one (site, api, lshape pair, dtype) case on the real code: result type/ltype/lshape/last/dtype and the
     pairing of items (vs torch's own broadcasting and vs the item-by-item table)."""
@@ -238,9 +276,11 @@ def check_bcast(ctx: Ctx, case) -> bool:
     wide = site[1] in ("add", "alg_add") and case.get("wide") and case["ycase"] == "plain"
     if wide:
         yt = torch.cat([yt, torch.full(yt.shape[:-1] + (1,), 7.0, dtype=yt.dtype)], dim=-1)  # documented: wider `other`
+    xt, xbase = as_view(xt, case.get("xview"))
+    yt, ybase = as_view(yt, case.get("yview"))
     X = _lie(xt, spec["px"])
     y = wrap_second(site, case["ycase"], yt)
-    x0, y0 = xt.clone(), yt.clone()
+    x0, y0 = xbase.clone(), ybase.clone()
     expect_shape = py_broadcast(sa, sb)
     tag = f"{site[0]}.{site[1]}"
     try:
@@ -255,7 +295,7 @@ def check_bcast(ctx: Ctx, case) -> bool:
                        f"{type(e).__name__}: {str(e)[:100]}")
         return False
     ok = True
-    if not torch.equal(xt, x0) or not torch.equal(yt, y0):
+    if not torch.equal(xbase, x0) or not torch.equal(ybase, y0):
         ctx.fail(case, f"mutation: {tag} ({case['api']}) changed an argument")
         ok = False
     if expect_shape is None:
@@ -385,7 +425,8 @@ def gen_bcast_cases(ctx: Ctx, good_pairs, bad_pairs):
                 "api": rng.choice(sorted(spec["apis"])), "ycase": rng.choice(["lie", "plain"]),
                 "dtype": "float64" if rng.random() < 0.7 else "float32",
                 "ox": rng.randrange(Pools.K), "oy": rng.randrange(Pools.K),
-                "wide": rng.random() < 0.25}
+                "wide": rng.random() < 0.25,
+                "xview": rng.choice([None, None, "slice", "perm"]), "yview": rng.choice([None, None, "slice", "perm"])}
     ops_g = ["mul", "act3", "act4", "adj", "adjT", "jinvp", "retr", "add"]
     if ctx.quick:
         # every broadcastable pair meets every op (group rotating with pair, op and seed) ...
@@ -430,6 +471,7 @@ def stream_bcast(ctx: Ctx):
     stream_binputs(ctx, good)
     cases = gen_bcast_cases(ctx, good, bad)
     model = model_pairs(ctx, sorted({(tuple(c["sa"]), tuple(c["sb"])) for c in cases}))
+    model_add = model_add_pairs(ctx, sorted({(tuple(c["sa"]), tuple(c["sb"])) for c in cases if c["site"][1] == "add"}))
     for (a, b) in good:
         m = model.get((a, b))
         if m is not None and (m["shape"] != py_broadcast(a, b) or m["last"] != 4):
@@ -443,7 +485,7 @@ def stream_bcast(ctx: Ctx):
         ctx.note_case(("bcast", site, sa, sb, c["dtype"]), out is None or numel(out) != 1 or (sa == () and sb == ()))
         ctx.count(f"bcast.{site[1]}")
         ctx.count("bcast.kind." + ("error" if out is None else "empty" if numel(out) == 0 else "scalar" if out == () else "batched"))
-        compare_bcast_model(ctx, c, model[(sa, sb)])
+        compare_bcast_model(ctx, c, (model_add if site[1] == "add" else model)[(sa, sb)])
         if len(ctx.samples) < 3 and out and numel(out) > 1:
             ctx.sample({k: v for k, v in c.items() if not k.startswith("_")})
 
@@ -622,7 +664,7 @@ def gen_handled_cases(ctx: Ctx, names):
     rng = ctx.rng
     todo = sorted(set(names) | set(PROPERTY_NAMED))
     cases = []
-    per = ctx.pick(10, 120)
+    per = ctx.pick(10, 200)
     for n in todo:
         if n in NO_CALLABLE:
             continue
@@ -728,8 +770,9 @@ def check_unary(ctx: Ctx, case) -> bool:
     fn = spec[0][api]
     pool = POOLS.get(lt, dtype)
     xt, tags = make_tagged(pool, s, case["ox"])
+    xt, xbase = as_view(xt, case.get("xview"))
     X = _lie(xt, lt)
-    x0 = xt.clone()
+    x0 = xbase.clone()
     try:
         with warnings.catch_warnings():
             warnings.simplefilter("ignore")
@@ -738,7 +781,7 @@ def check_unary(ctx: Ctx, case) -> bool:
         ctx.fail(case, f"raises: {lt}.{op} ({api}) raises on lshape {s}: {type(e).__name__}: {str(e)[:100]}")
         return False
     ok = True
-    if not torch.equal(xt, x0):
+    if not torch.equal(xbase, x0):
         ctx.fail(case, f"mutation: {lt}.{op} ({api}) changed its argument")
         ok = False
     out = spec[1]
@@ -773,7 +816,8 @@ def stream_unary(ctx: Ctx):
             chosen = ops if not ctx.quick else [ops[(si + li + k * 3 + ctx.seed) % len(ops)] for k in range(3)]
             for op, apis, out in chosen:
                 case = {"kind": "unary", "lt": lt, "op": op, "api": rng.choice(sorted(apis)), "s": list(s),
-                        "dtype": "float64" if rng.random() < 0.7 else "float32", "ox": rng.randrange(Pools.K)}
+                        "dtype": "float64" if rng.random() < 0.7 else "float32", "ox": rng.randrange(Pools.K),
+                        "xview": rng.choice([None, None, "slice", "perm"])}
                 check_unary(ctx, case)
                 ctx.note_case(("unary", lt, op, s, case["dtype"]), numel(s) != 1 or s == ())
                 ctx.count(f"unary.{op}")
@@ -908,9 +952,6 @@ def stream_ctor(ctx: Ctx):
         if type(Pc) is not P.Parameter or getattr(Pc, "ltype", None) is not X.ltype or not torch.equal(Pc.tensor(), X.tensor()) \
                 or Pc.data_ptr() == Pm.data_ptr() or not Pc.requires_grad:
             ctx.fail(case, f"param: deepcopy(Parameter({lt})) -> {type(Pc).__name__} ltype {ltype_name(getattr(Pc, 'ltype', None))}")
-        memo = {}
-        if copy.deepcopy([Pm, Pm], memo)[0] is not copy.deepcopy([Pm, Pm])[0] and False:
-            pass
         two = copy.deepcopy([Pm, Pm])
         if two[0] is not two[1]:
             ctx.fail(case, "param: deepcopy does not honour its memo (one Parameter copied twice)")
@@ -1269,20 +1310,16 @@ def stream_retain(ctx: Ctx):
         pose = _lie(POOLS.get(lt, "float64")[:1].clone(), lt)
         pts = POOLS.get("p3", "float64")[:1].clone()
         seen = []
-        calls = {"n": 0}
 
         def f(pose_, pts_):
             seen.append((type(pose_).__name__, ltype_name(getattr(pose_, "ltype", None))))
-            calls["n"] += 1
-            if fname == "raise0" or (fname == "raise1" and calls["n"] >= 1 and len(seen) >= 1 and fname == "raise1"):
-                if fname == "raise0" or calls["n"] >= 1:
-                    if fname == "raise0":
-                        raise ValueError("injected")
-            out = pose_ @ pts_
-            if fname == "raise1":
+            if fname == "raise0":                   # raises before touching its arguments
                 raise ValueError("injected")
-            if fname == "nested":
-                inner = P.func.jacrev(lambda q, x: q @ x)(pose_.detach() if False else pose, pts)
+            out = pose_ @ pts_
+            if fname == "raise1":                   # raises after the wrapped torch functions were used
+                raise ValueError("injected")
+            if fname == "nested":                   # a second jacrev (nested retain_ltype) inside the first
+                inner = P.func.jacrev(lambda q, x: q @ x)(pose, pts)
                 out = out + 0 * inner.sum()
             if fname == "aux":
                 return out, out.detach()
@@ -1350,7 +1387,8 @@ def stream_purity(ctx: Ctx):
     reg = UP.registry()
     names = sorted(reg)
     pub = UP.public_names()
-    unc = [n for n in pub if n not in reg and not n.startswith("pp.identity_") and not n.startswith("pp.randn_")]
+    unc = [n for n in pub if n not in reg and not n.startswith("pp.identity_") and not n.startswith("pp.randn_")
+           and n != "pp.retain_ltype"]          # constructors: ctor stream; retain_ltype: retain stream
     ctx.count("purity.public", len(pub))
     ctx.count("purity.covered", len([n for n in pub if n in reg]))
     ctx.notes.append("public callables without synthesised arguments in C06's sweep (covered by the monitors of their own "
@@ -1430,7 +1468,8 @@ def replay(ctx: Ctx, case) -> bool:
     if kind == "bcast":
         check_bcast(ctx, c)
         sa, sb = tuple(c["sa"]), tuple(c["sb"])
-        compare_bcast_model(ctx, c, model_pairs(ctx, [(sa, sb)])[(sa, sb)])
+        mp = model_add_pairs if c["site"][1] == "add" else model_pairs
+        compare_bcast_model(ctx, c, mp(ctx, [(sa, sb)])[(sa, sb)])
     elif kind == "handled":
         ex = exec_handled(ctx, c)
         if ex is not None:
